@@ -120,6 +120,45 @@ def unit_request(req_type, kind):
     return run
 
 
+def unit_create_ip_address(kind):
+    """_create_ip_address(host, port): the address object the machine is built around names exactly the host text the caller
+    gave (make_addr, used by the request units, assumes this shape)"""
+    def run(ctx):
+        ctx.fn(MODULE, '_create_ip_address')
+        from twisted.internet.address import IPv4Address, IPv6Address, HostnameAddress
+        from pyvc import extract
+        from pyvc.sym import VFunc, VInst, VStr as _VStr
+        ex = ctx.ex
+        path = ctx.new_path()
+        host, port = z3.String('host'), z3.Int('port')
+        ctx.input('host', VStr(host))
+        ctx.input('port', port)
+        fam = {'v4': 4, 'v6': 6, 'name': 0}[kind]
+        if kind == 'name':
+            path.assume(z3.And(C.F_family(host) != 4, C.F_family(host) != 6))
+        else:
+            path.assume(C.F_family(host) == fam)
+        ctx.cover('pre_satisfiable', path)
+        mi, node = extract.find(MODULE, '_create_ip_address')
+        f = VFunc(node, MODULE, '_create_ip_address')
+        want = {'v4': IPv4Address, 'v6': IPv6Address, 'name': HostnameAddress}[kind]
+        n_ok = 0
+        for p, r in ex.call(path, f, [VStr(host), VInt(port)], {}):
+            if isinstance(r, Raise):
+                ctx.oblige('no_exception', p, B(False), clause='every encodable target is sent')
+                continue
+            n_ok += 1
+            ok = isinstance(r, VInst) and r.cls is want
+            h = p.heap.get(('f', r.oid, 'host')) if ok else None
+            pt = p.heap.get(('f', r.oid, 'port')) if ok else None
+            ctx.oblige('post.address_object_of_the_literal_family_with_the_host_text_verbatim', p,
+                       zand(B(ok and isinstance(h, _VStr) and isinstance(pt, VInt)), h.t == host, pt.t == port) if ok and isinstance(h, _VStr) and isinstance(pt, VInt) else B(False),
+                       clause='right address type, full-length address: an IPv4 literal is sent as IPv4, an IPv6 literal as IPv6, anything else as a name')
+        if not n_ok:
+            ctx.oblige('some_normal_exit', path, B(False))
+    return run
+
+
 def unit_connection(req_type):
     def run(ctx):
         ctx.fn(MODULE, '_SocksMachine._send_version')
@@ -214,6 +253,8 @@ def units():
             if st == 'relaying' and rt != 'CONNECT':
                 continue
             out.append(('C06/disconnected_sends_nothing@%s/%s' % (st, rt), unit_no_send('disconnected', st, rt)))
+    for k in KINDS:
+        out.append(('C06/_create_ip_address/%s' % k, unit_create_ip_address(k)))
     return out
 
 
